@@ -77,6 +77,12 @@ def run_property(modname, replay_path=None):
         rep.inconclusive_because(str(inc))
         return rep.finish({"evaluations": 0, "distinct_nontrivial": 0, "rule": getattr(mod, "RULE", ""),
                            "samples": []}, getattr(mod, "ASSUMPTIONS", ()))
+    except Exception as err:  # noqa - a harness failure is never a verdict on the code under test
+        import traceback
+        rep.inconclusive_because("harness error: " + "".join(traceback.format_exception_only(type(err), err)).strip()[:500])
+        traceback.print_exc()
+        return rep.finish({"evaluations": 0, "distinct_nontrivial": 0, "rule": getattr(mod, "RULE", ""),
+                           "samples": []}, getattr(mod, "ASSUMPTIONS", ()))
     for sig, wit in tot.violations:
         rep.violation(sig, wit)
     for r in tot.inconclusive:
